@@ -104,8 +104,14 @@ fn main() {
         "c05" => tmon::c05::run(&ctx),
         "c06" => tmon::c06::run(&ctx),
         "c07" => tmon::c07::run(&ctx),
+        "c08" => tmon::c08::run(&ctx),
         "c09" => tmon::c09::run(&ctx),
         "c10" => tmon::c10::run(&ctx),
+        "c11" => tmon::c11::run(&ctx),
+        "c13" => tmon::c13::run(&ctx),
+        "c14" => tmon::c14::run(&ctx),
+        "c16" => tmon::c16::run(&ctx),
+        "c17" => tmon::c17::run(&ctx),
         _ => {
             let _ = rest;
             usage()
